@@ -240,9 +240,11 @@ func init() {
 }
 
 func collapsingKinds(tier string) []Kind {
-	ns := []int{1, 2, 3, 4, 8}
+	// 65 and 100 sit between the 64-slot allocation overhead and the next
+	// power of two, where spare capacity left by append can exceed the limit
+	ns := []int{1, 2, 3, 4, 8, 65, 100}
 	if tier == "thorough" {
-		ns = append(ns, 5, 16, 64, 2048)
+		ns = append(ns, 5, 16, 64, 127, 2048)
 	}
 	var out []Kind
 	for _, n := range ns {
